@@ -1,4 +1,5 @@
-From SV Require Import Base.ListX Store.Masked World.Env World.Join World.JoinProps World.EnvSim World.Simulation.
+From SV Require Import Base.ListX Store.Masked World.Env World.Join World.JoinProps World.JoinAbs World.JoinRefine
+  World.JoinAbsProps World.EnvSim World.Simulation.
 From Coq Require Import Sorting.Sorted.
 From SV Require Import Props.C06.
 Check (C06_ascending_once : forall e eids ms keys, jkeys e eids ms = Some keys ->
@@ -52,3 +53,27 @@ Check (C06_same_join_under_both_allocators : forall av1 av2 hs,
   (forall k e, pv_get hs k = Some e -> av_alive av1 e = av_alive av2 e) ->
   (forall i, av_cur_gen av1 i = av_cur_gen av2 i) ->
   forall env eids k ms, env_join env av1 eids hs k ms = env_join env av2 eids hs k ms).
+Check (C06_join_refines_the_join_on_maps : forall unit av hs excl eids ms keys e S, absrel unit e S ->
+  snd (visit_keys av hs excl eids ms keys e) = snd (a_visit_keys unit av hs excl eids ms keys S) /\
+  absrel unit (fst (visit_keys av hs excl eids ms keys e)) (fst (a_visit_keys unit av hs excl eids ms keys S))).
+Check (C06_direct_lookup_is_the_cell : forall unit e S sid ms av ent c, absrel unit e S ->
+  NM.find sid (se_stores e) = Some ms -> av_alive av ent = true ->
+  st_get ms av ent c = (NM.find (fst ent) (as_st S sid), c)).
+Check (C06_items_equal_direct_lookups : forall unit av hs excl eids pre m post s keys S, NoDup keys ->
+  reads_cell m s = true -> forallb (fun m' => negb (m_owns m' s)) pre = true ->
+  forall j xs, In (j, xs) (snd (a_visit_keys unit av hs excl eids (pre ++ m :: post) keys S)) ->
+  nth_error xs (length pre) = Some (JTok (tok_of (cell S s j)))).
+Check (C06_mutation_lands_on_the_visited_entities_only : forall unit av hs excl eids pre post s touch z keys S j, NoDup keys ->
+  forallb (fun m => negb (m_owns m s)) pre = true -> forallb (fun m => negb (m_owns m s)) post = true ->
+  cell (fst (a_visit_keys unit av hs excl eids (pre ++ MWrite s touch (Some z) :: post) keys S)) s j =
+    if in_dec N.eq_dec j keys then bump (unit s) z (cell S s j) else cell S s j).
+Check (C06_other_storages_untouched : forall unit av hs excl eids ms keys S s j, NoDup keys ->
+  forallb (fun m => negb (m_owns m s)) ms = true ->
+  cell (fst (a_visit_keys unit av hs excl eids ms keys S)) s j = cell S s j).
+Check (C06_cells_after_a_join : forall unit av hs excl eids ms keys S s j, NoDup keys ->
+  cell (fst (a_visit_keys unit av hs excl eids ms keys S)) s j =
+    if in_dec N.eq_dec j keys then members_eff unit ms j s (cell S s j) else cell S s j).
+Check (C06_drain_removes_the_visited_only : forall unit av hs excl eids pre post s keys S j, NoDup keys ->
+  forallb (fun m => negb (m_owns m s)) pre = true -> forallb (fun m => negb (m_owns m s)) post = true ->
+  cell (fst (a_visit_keys unit av hs excl eids (pre ++ MDrain s :: post) keys S)) s j =
+    if in_dec N.eq_dec j keys then None else cell S s j).
